@@ -22,6 +22,8 @@ func keyName(k int) string {
 	switch {
 	case k == 1:
 		return "" // the empty key
+	case k%5 == 0:
+		return keyName(k-1) + ".t" // looks like a path into the map that the neighbouring key may hold; it is a key like any other
 	case k%3 == 0:
 		return fmt.Sprintf("ключ-%d-é", k) // non-ASCII
 	default:
@@ -32,6 +34,12 @@ func keyName(k int) string {
 func keyTok(s string) int {
 	if s == "" {
 		return 1
+	}
+	if strings.HasSuffix(s, ".t") {
+		if b := keyTok(strings.TrimSuffix(s, ".t")); b > 0 {
+			return b + 1
+		}
+		return -1
 	}
 	var k int
 	if _, err := fmt.Sscanf(s, "ключ-%d-é", &k); err == nil {
